@@ -18,6 +18,12 @@ with RC2(w, solver=sys.argv[1]) as r:
     m = r.compute(); assert m is not None
     r.add_clause([-3])
     assert r.compute() is None
+# degenerate inputs that the operators do produce: contradictory units, and a formula without any clause
+w2 = WCNF(); w2.append([1]); w2.append([-1]); w2.append([2], weight=1)
+with RC2(w2, solver=sys.argv[1]) as r:
+    assert r.compute() is None
+with RC2(WCNF(), solver=sys.argv[1]) as r:
+    assert r.compute() is not None
 print("ok")
 """
 
